@@ -14,7 +14,7 @@ Ops == {O("setprefix", t, "", "", "", FALSE) : t \in MCTypes}
        \cup {O("setsession", 0, s, "", "", FALSE) : s \in Sids}
        \cup {O("setlang", 0, l, "", "", FALSE) : l \in Langs}
        \cup {O("setctxlang", 0, l, "", "", FALSE) : l \in Langs}
-       \cup {O("setlock", t, "", "", "", b) : t \in (MCTypes \cap SafeLock) \cup {0}, b \in BOOLEAN}
+       \cup {O("setlock", t, "", "", "", b) : t \in (MCTypes \cap SafeLock) \cup {0, TMENU + TSTATIC, TMENU + TSTATE}, b \in BOOLEAN}
        \cup {O("put", 0, "", k, Vid(nv), FALSE) : k \in Keys}
        \cup {O("put", 0, "", k, "", FALSE) : k \in Keys}          \* the empty value is a value
        \cup {O("get", 0, "", k, "", FALSE) : k \in Keys}
